@@ -403,8 +403,9 @@ class TermDomain(Domain):
         if (a, b) == (f, t):
             return self.negate(cond)
         if isinstance(cond, tuple) and len(cond) == 3 and cond[0] == "u" and cond[1] == "not":
-            return ("ite", cond[2], b, a)
-        return ("ite", cond, a, b)
+            cond, a, b = cond[2], b, a
+        a, b = assume(a, cond, True), assume(b, cond, False)
+        return a if a == b else ("ite", cond, a, b)
 
     def negate(self, c):
         if isinstance(c, tuple) and len(c) == 4 and c[0] == "cmp":
@@ -527,6 +528,17 @@ class TermDomain(Domain):
         if isinstance(value, tuple) and len(value) == 3 and value[0] == "at" and value[2] == index:
             value = value[1]                            # k[mask] = k_2[mask]  ==  where(mask, k_2, k)
         return ("where", index, value, old)
+
+
+def assume(t, cond, truth, _depth=0):
+    """simplify a term under the assumption that `cond` is true / false: nested conditionals on the same condition collapse"""
+    if _depth > 40 or not isinstance(t, (tuple, Seq)):
+        return t
+    if isinstance(t, tuple) and len(t) == 4 and t[0] == "ite" and t[1] == cond:
+        return assume(t[2] if truth else t[3], cond, truth, _depth + 1)
+    if isinstance(t, Seq):
+        return Seq(assume(x, cond, truth, _depth + 1) for x in t)
+    return tuple(assume(x, cond, truth, _depth + 1) if isinstance(x, (tuple, Seq)) else x for x in t)
 
 
 def term_walk(t):
